@@ -25,6 +25,7 @@ type lresp struct {
 	II     int64
 	Issuer *string
 	Status string
+	Nested []string // StatusCode elements nested below the top-level one, outermost first (must not matter)
 	Sig    string // none | idp | attacker | idp-then-edit | moved
 	Kind   string // ok | garbage-b64 | garbage-xml | noroot | other-root | inflate-bomb
 }
@@ -40,6 +41,11 @@ func (c *Ctx) logoutXML(l lresp) []byte {
 	}
 	r := saml.LogoutResponse{ID: fmt.Sprintf("id-lr%d", c.n), InResponseTo: "id-lreq", Version: "2.0", IssueInstant: time.UnixMilli(l.II).UTC(), Destination: l.Dest,
 		Status: saml.Status{StatusCode: saml.StatusCode{Value: l.Status}}}
+	inner := &r.Status.StatusCode
+	for _, v := range l.Nested {
+		inner.StatusCode = &saml.StatusCode{Value: v}
+		inner = inner.StatusCode
+	}
 	if l.Issuer != nil {
 		r.Issuer = &saml.Issuer{Value: *l.Issuer}
 	}
@@ -196,6 +202,18 @@ func (c *Ctx) genC18() {
 		for _, st := range stats {
 			l := base()
 			l.Status = st
+			c.runLogout(l, e, delay)
+		}
+		// nested status codes refine the top-level one and must not change the verdict
+		responder := "urn:oasis:names:tc:SAML:2.0:status:Responder"
+		for _, ns := range []struct {
+			top  string
+			nest []string
+		}{{responder, []string{successSt}}, {responder, []string{"urn:oasis:names:tc:SAML:2.0:status:PartialLogout", successSt}}, {successSt, []string{responder}},
+			{successSt, []string{successSt}}, {"", []string{successSt}}, {responder, []string{responder}}} {
+			l := base()
+			l.Status, l.Nested = ns.top, ns.nest
+			c.count("c18-nested-status", ns.top[strings.LastIndex(ns.top, ":")+1:]+"/"+fmt.Sprint(len(ns.nest)))
 			c.runLogout(l, e, delay)
 		}
 		for _, dl := range []int64{90000, 30000, 600000} {
